@@ -459,7 +459,7 @@ def oracle_from_text(t):
     for rx, base, marks in ((BIN_RE, 2, b"bB"), (HEX_RE, 16, b"xX")):
         if re.match(rb"[-+]?0[" + marks + rb"]", t):
             sp = lit_split(t, rx)
-            if sp is None: return "!err malformed"
+            if sp is None: return "!err raises" if base == 2 else None
             neg, i, frac, ex = sp
             if frac is False and ex is None:
                 v = int(i.decode(), base); return limbs((-v if neg else v) % W)
@@ -988,8 +988,9 @@ def correspond(ctx):
             n_no_oracle += 1
         if exp is not None and i != exp:
             n_oracle_fail += 1
-            if shown_per_op.get(op, 0) < 3:
-                shown_per_op[op] = shown_per_op.get(op, 0) + 1
+            if c[0] == "known-replay" or shown_per_op.get(op, 0) < 3:
+                if c[0] != "known-replay":   # designated witnesses of known findings never use up the display budget of an op
+                    shown_per_op[op] = shown_per_op.get(op, 0) + 1
                 ctx.violation(known_keys[(op, args)] if c[0] == "known-replay" else "bint:%s" % fmt(c), "oracle",
                               "bint %s: implementation returns %s, exact arithmetic mod 2^%d gives %s" % (fmt(c), i, BITS, exp),
                               detail={"case": fmt(c), "implementation": i, "model": m, "oracle": exp,
